@@ -1,7 +1,12 @@
 package main
 
-// One long-lived SMT solver process per worker ("z3 -in" style), fed SMT-LIB2 text.
+// SMT back end: per worker, a portfolio of long-lived solver processes fed SMT-LIB2 text.
+//   z3-intblast: z3 5.1.0 with the integer-blasting bit-vector solver (smt.bv.solver=2) — decides the linear
+//           64-bit arithmetic of deadlines/indices in milliseconds where bit-blasting needs tens of seconds;
+//   z3-bitblast: z3 5.1.0 default — decides the bit-twiddling queries (sketch, SWAR);
+//   then a one-shot cvc5 --solve-bv-as-int=sum, then both z3 configurations again with the long timeout.
 // No set-logic, no push/pop: path constraints are asserted, probes use check-sat-assuming.
+// Any "(error" line, "unknown" or timeout is inconclusive, never success.
 
 import (
 	"bufio"
@@ -16,92 +21,116 @@ import (
 
 var slowQueryDir = os.Getenv("VERIF_SLOWQ")
 var slowN int
+var traceSolver = os.Getenv("VERIF_TRACE_SOLVER")
 
-type Solver struct {
-	bin     string
-	args    []string
-	cmd     *exec.Cmd
-	in      io.WriteCloser
-	out     *bufio.Reader
-	emitted map[int]bool
-	script  []string // declarations, definitions, assertions since last reset
-	pending strings.Builder
-
-	timeoutMs int
-	shortMs   int
-	lastAssump      []*Term
-	lastFallbackSat bool
-	FallbackHits    int
-	Queries   int
-	Unknowns  int
-	Errors    int
-	Time      time.Duration
+type proc struct {
+	bin       string
+	opts      []string // set-option lines sent after every reset
+	cmd       *exec.Cmd
+	in        io.WriteCloser
+	out       *bufio.Reader
+	sent      int
+	needReset bool
+	dead      bool
+	name      string
 }
 
-func NewSolver(bin string, args []string, timeoutMs int) (*Solver, error) {
-	s := &Solver{bin: bin, args: args, timeoutMs: timeoutMs, shortMs: 1500}
-	if err := s.start(); err != nil {
+func (p *proc) start() error {
+	p.cmd = exec.Command(p.bin, "-in")
+	in, err := p.cmd.StdinPipe()
+	if err != nil {
+		return err
+	}
+	out, err := p.cmd.StdoutPipe()
+	if err != nil {
+		return err
+	}
+	if err := p.cmd.Start(); err != nil {
+		return err
+	}
+	p.in = in
+	p.out = bufio.NewReaderSize(out, 1<<16)
+	p.sent = 0
+	p.needReset = true
+	p.dead = false
+	return nil
+}
+
+func (p *proc) close() {
+	if p.cmd != nil {
+		p.in.Close()
+		p.cmd.Process.Kill()
+		p.cmd.Wait()
+		p.cmd = nil
+	}
+}
+
+type Solver struct {
+	procs   []*proc
+	emitted map[int]bool
+	script  []string // declarations, definitions, assertions since last reset
+
+	timeoutMs    int
+	shortMs      int
+	lastAssump   []*Term
+	last         *proc // process holding the model of the last "sat"
+	FallbackHits int
+	Queries      int
+	Unknowns     int
+	Errors       int
+	Time         time.Duration
+	ByProc       map[string]int
+	runs         int
+}
+
+// NewSolver starts the portfolio. prefer = "int" or "bits" selects which z3 configuration is asked first.
+func NewSolver(bin string, prefer string, timeoutMs int) (*Solver, error) {
+	intp := &proc{bin: bin, name: "z3-intblast", opts: []string{"(set-option :smt.bv.solver 2)"}}
+	bitp := &proc{bin: bin, name: "z3-bitblast"}
+	s := &Solver{timeoutMs: timeoutMs, shortMs: 1500, emitted: map[int]bool{}, ByProc: map[string]int{}}
+	if prefer == "bits" {
+		s.procs = []*proc{bitp, intp}
+	} else {
+		s.procs = []*proc{intp, bitp}
+	}
+	if err := s.procs[0].start(); err != nil {
 		return nil, err
 	}
 	return s, nil
 }
 
-func (s *Solver) start() error {
-	s.cmd = exec.Command(s.bin, s.args...)
-	in, err := s.cmd.StdinPipe()
-	if err != nil {
-		return err
-	}
-	out, err := s.cmd.StdoutPipe()
-	if err != nil {
-		return err
-	}
-	s.cmd.Stderr = nil
-	if err := s.cmd.Start(); err != nil {
-		return err
-	}
-	s.in = in
-	s.out = bufio.NewReaderSize(out, 1<<16)
-	s.emitted = map[int]bool{}
-	s.script = s.script[:0]
-	s.pending.Reset()
-	s.header()
-	return nil
-}
-
-func (s *Solver) header() {
-	fmt.Fprintf(&s.pending, "(set-option :timeout %d)\n", s.timeoutMs)
-}
-
 func (s *Solver) Close() {
-	if s.cmd != nil {
-		s.in.Close()
-		s.cmd.Process.Kill()
-		s.cmd.Wait()
-		s.cmd = nil
+	for _, p := range s.procs {
+		p.close()
 	}
 }
 
-// Reset clears all assertions and definitions (new run).
+// Reset clears all assertions and definitions (new run). z3 processes grow across resets, so each is
+// restarted after a number of runs.
 func (s *Solver) Reset() {
+	s.runs++
+	if s.runs%400 == 0 {
+		for _, p := range s.procs {
+			p.close()
+		}
+	}
 	s.emitted = map[int]bool{}
 	s.script = s.script[:0]
-	s.pending.Reset()
-	s.pending.WriteString("(reset)\n")
-	s.header()
+	s.last = nil
+	for _, p := range s.procs {
+		p.needReset = true
+		p.sent = 0
+	}
 }
 
 func (s *Solver) line(l string) {
 	s.script = append(s.script, l)
-	s.pending.WriteString(l)
-	s.pending.WriteString("\n")
 }
 
 func (s *Solver) define(t *Term) {
 	if t.op == OpConst || s.emitted[t.id] {
 		return
 	}
-	// iterative post-order to avoid deep recursion
 	type fr struct {
 		t *Term
 		i int
@@ -140,40 +169,114 @@ func (s *Solver) Assert(t *Term) {
 	s.line(fmt.Sprintf("(assert %s)", t.ref()))
 }
 
-func (s *Solver) flush() error {
-	if s.pending.Len() == 0 {
-		return nil
-	}
-	_, err := io.WriteString(s.in, s.pending.String())
-	s.pending.Reset()
-	return err
-}
-
-func (s *Solver) readLine() (string, error) {
-	l, err := s.out.ReadString('\n')
+func (p *proc) readLine() (string, error) {
+	l, err := p.out.ReadString('\n')
 	return strings.TrimSpace(l), err
 }
 
+// checkOn brings the process up to date with the script and decides the assumptions.
+func (s *Solver) checkOn(p *proc, ms int, assump []*Term) string {
+	if p.cmd == nil || p.dead {
+		p.close()
+		if err := p.start(); err != nil {
+			s.Errors++
+			return "unknown"
+		}
+	}
+	var sb strings.Builder
+	if p.needReset {
+		sb.WriteString("(reset)\n")
+		for _, o := range p.opts {
+			sb.WriteString(o)
+			sb.WriteString("\n")
+		}
+		p.needReset = false
+		p.sent = 0
+	}
+	for _, l := range s.script[p.sent:] {
+		sb.WriteString(l)
+		sb.WriteString("\n")
+	}
+	p.sent = len(s.script)
+	fmt.Fprintf(&sb, "(set-option :timeout %d)\n(check-sat-assuming (", ms)
+	for i, a := range assump {
+		if i > 0 {
+			sb.WriteString(" ")
+		}
+		sb.WriteString(a.ref())
+	}
+	sb.WriteString("))\n")
+	if traceSolver != "" {
+		f, _ := os.OpenFile(traceSolver+"."+p.name, os.O_APPEND|os.O_CREATE|os.O_WRONLY, 0o644)
+		f.WriteString(sb.String())
+		f.Close()
+	}
+	t0 := time.Now()
+	s.Queries++
+	s.ByProc[p.name]++
+	defer func() { s.Time += time.Since(t0) }()
+	if _, err := io.WriteString(p.in, sb.String()); err != nil {
+		s.Errors++
+		p.dead = true
+		return "unknown"
+	}
+	sawErr := false
+	for {
+		l, err := p.readLine()
+		if err != nil {
+			s.Errors++
+			p.dead = true
+			return "unknown"
+		}
+		switch {
+		case l == "sat" || l == "unsat":
+			if sawErr {
+				return "unknown"
+			}
+			if d := time.Since(t0); d > 5*time.Second && slowQueryDir != "" {
+				slowN++
+				writeFile(fmt.Sprintf("%s/slow_%d_%d_%s_%s.smt2", slowQueryDir, os.Getpid(), slowN, p.name, l), strings.Join(s.script, "\n")+"\n"+sb.String())
+			}
+			return l
+		case l == "unknown" || l == "timeout":
+			return "unknown"
+		case strings.HasPrefix(l, "(error"):
+			s.Errors++
+			sawErr = true
+		}
+	}
+}
+
 // Check decides satisfiability of the asserted constraints plus the assumptions.
-// Returns "sat", "unsat" or "unknown" (which includes errors and timeouts).
+// Returns "sat", "unsat" or "unknown".
 func (s *Solver) Check(assump ...*Term) string {
+	for _, a := range assump {
+		s.define(a)
+	}
 	s.lastAssump = assump
-	s.lastFallbackSat = false
-	r := s.checkZ3(s.shortMs, assump)
-	if r != "unknown" {
+	s.last = nil
+	for _, p := range s.procs {
+		if r := s.checkOn(p, s.shortMs, assump); r != "unknown" {
+			if r == "sat" {
+				s.last = p
+			}
+			return r
+		}
+	}
+	if r := s.cvc5Int(assump); r == "sat" || r == "unsat" {
+		s.FallbackHits++
 		return r
 	}
-	// portfolio: linear 64-bit arithmetic that stalls bit-blasting is often immediate in the integer encoding
-	if r2 := s.cvc5Int(assump); r2 == "sat" || r2 == "unsat" {
-		s.FallbackHits++
-		s.lastFallbackSat = r2 == "sat"
-		return r2
+	for _, p := range s.procs {
+		if r := s.checkOn(p, s.timeoutMs, assump); r != "unknown" {
+			if r == "sat" {
+				s.last = p
+			}
+			return r
+		}
 	}
-	r = s.checkZ3(s.timeoutMs, assump)
-	if r == "unknown" {
-		s.Unknowns++
-	}
-	return r
+	s.Unknowns++
+	return "unknown"
 }
 
 func (s *Solver) cvc5Int(assump []*Term) string {
@@ -193,6 +296,7 @@ func (s *Solver) cvc5Int(assump []*Term) string {
 	out, _ := cmd.CombinedOutput()
 	s.Time += time.Since(t0)
 	s.Queries++
+	s.ByProc["cvc5-int"]++
 	txt := string(out)
 	if strings.Contains(txt, "(error") {
 		return "unknown"
@@ -206,106 +310,50 @@ func (s *Solver) cvc5Int(assump []*Term) string {
 	return "unknown"
 }
 
-func (s *Solver) checkZ3(ms int, assump []*Term) string {
-	for _, a := range assump {
-		s.define(a)
+// modelProc makes sure some process holds a model for the last sat answer.
+func (s *Solver) modelProc() (*proc, error) {
+	if s.last != nil {
+		return s.last, nil
 	}
-	var sb strings.Builder
-	fmt.Fprintf(&sb, "(set-option :timeout %d)\n", ms)
-	sb.WriteString("(check-sat-assuming (")
-	for i, a := range assump {
-		if i > 0 {
-			sb.WriteString(" ")
-		}
-		sb.WriteString(a.ref())
-	}
-	sb.WriteString("))\n")
-	s.pending.WriteString(sb.String())
-	t0 := time.Now()
-	s.Queries++
-	if err := s.flush(); err != nil {
-		s.Errors++
-		s.restart()
-		return "unknown"
-	}
-	for {
-		l, err := s.readLine()
-		if err != nil {
-			s.Errors++
-			s.restart()
-			s.Time += time.Since(t0)
-			return "unknown"
-		}
-		switch {
-		case l == "sat" || l == "unsat":
-			d := time.Since(t0)
-			s.Time += d
-			if d > 5*time.Second && slowQueryDir != "" {
-				slowN++
-				var sb2 strings.Builder
-				for _, x := range s.script {
-					sb2.WriteString(x + "\n")
-				}
-				sb2.WriteString(sb.String())
-				writeFile(fmt.Sprintf("%s/slow_%d_%d_%s.smt2", slowQueryDir, os.Getpid(), slowN, l), sb2.String())
-			}
-			return l
-		case l == "unknown" || l == "timeout":
-			s.Time += time.Since(t0)
-			return "unknown"
-		case strings.HasPrefix(l, "(error"):
-			s.Errors++
-			// keep reading: the check-sat answer still follows; but treat as inconclusive
-			rest, _ := s.readLineUntilVerdict()
-			_ = rest
-			s.Time += time.Since(t0)
-			return "unknown"
-		case l == "":
-			continue
+	for _, p := range s.procs {
+		if r := s.checkOn(p, s.timeoutMs, s.lastAssump); r == "sat" {
+			s.last = p
+			return p, nil
 		}
 	}
+	return nil, fmt.Errorf("no model: no z3 configuration confirmed the sat answer")
 }
 
-func (s *Solver) readLineUntilVerdict() (string, error) {
+func readSexp(p *proc) (string, error) {
+	var buf strings.Builder
+	depth := 0
+	started := false
 	for {
-		l, err := s.readLine()
+		r, _, err := p.out.ReadRune()
 		if err != nil {
 			return "", err
 		}
-		if l == "sat" || l == "unsat" || l == "unknown" || l == "timeout" {
-			return l, nil
+		if r == '(' {
+			depth++
+			started = true
 		}
-	}
-}
-
-func (s *Solver) restart() {
-	s.Close()
-	old := append([]string(nil), s.script...)
-	if err := s.start(); err != nil {
-		panic(err)
-	}
-	// replay script so the session is consistent again
-	for _, l := range old {
-		s.script = append(s.script, l)
-		s.pending.WriteString(l)
-		s.pending.WriteString("\n")
-		if strings.HasPrefix(l, "(define-fun t") {
-			idEnd := strings.IndexByte(l[13:], ' ')
-			if id, err := strconv.Atoi(l[13 : 13+idEnd]); err == nil {
-				s.emitted[id] = true
+		if started {
+			buf.WriteRune(r)
+		}
+		if r == ')' {
+			depth--
+			if started && depth == 0 {
+				return buf.String(), nil
 			}
 		}
 	}
-	// variables: mark as emitted by name is not possible by id; caller resets per run anyway
 }
 
 // Model fetches values for the given variables after a "sat" answer.
 func (s *Solver) Model(vars []*Term) (map[string]uint64, error) {
-	if s.lastFallbackSat {
-		if r := s.checkZ3(s.timeoutMs, s.lastAssump); r != "sat" {
-			return nil, fmt.Errorf("no model: z3 answered %s after cvc5 answered sat", r)
-		}
-		s.lastFallbackSat = false
+	p, err := s.modelProc()
+	if err != nil {
+		return nil, err
 	}
 	m := map[string]uint64{}
 	var ask []*Term
@@ -326,46 +374,54 @@ func (s *Solver) Model(vars []*Term) (map[string]uint64, error) {
 		sb.WriteString(" ")
 	}
 	sb.WriteString("))\n")
-	s.pending.WriteString(sb.String())
-	if err := s.flush(); err != nil {
+	if _, err := io.WriteString(p.in, sb.String()); err != nil {
+		p.dead = true
 		return nil, err
 	}
-	// read a balanced s-expression
-	var buf strings.Builder
-	depth := 0
-	started := false
-	for {
-		r, _, err := s.out.ReadRune()
-		if err != nil {
-			return nil, err
-		}
-		if r == '(' {
-			depth++
-			started = true
-		}
-		if started {
-			buf.WriteRune(r)
-		}
-		if r == ')' {
-			depth--
-			if started && depth == 0 {
-				break
-			}
-		}
+	txt, err := readSexp(p)
+	if err != nil {
+		p.dead = true
+		return nil, err
 	}
-	txt := buf.String()
 	if strings.HasPrefix(txt, "(error") {
 		return nil, fmt.Errorf("solver: %s", txt)
 	}
-	// parse pairs (name value)
 	toks := tokenize(txt)
 	for i := 0; i+1 < len(toks); i++ {
 		if toks[i] == "(" && i+3 < len(toks) && toks[i+3] == ")" && toks[i+1] != "(" {
-			name, val := toks[i+1], toks[i+2]
-			m[name] = parseSMTVal(val)
+			m[toks[i+1]] = parseSMTVal(toks[i+2])
 		}
 	}
 	return m, nil
+}
+
+// ValueOf returns the value of term t in the model of the last (sat) check; t must have been defined
+// before that check.
+func (s *Solver) ValueOf(t *Term, _ []*Term) (uint64, error) {
+	if t.IsConst() {
+		return t.c, nil
+	}
+	p, err := s.modelProc()
+	if err != nil {
+		return 0, err
+	}
+	if _, err := io.WriteString(p.in, fmt.Sprintf("(get-value (%s))\n", t.ref())); err != nil {
+		p.dead = true
+		return 0, err
+	}
+	txt, err := readSexp(p)
+	if err != nil {
+		p.dead = true
+		return 0, err
+	}
+	if strings.HasPrefix(txt, "(error") {
+		return 0, fmt.Errorf("solver: %s", txt)
+	}
+	toks := tokenize(txt)
+	if len(toks) >= 5 {
+		return parseSMTVal(toks[len(toks)-3]), nil
+	}
+	return 0, fmt.Errorf("solver: cannot parse %q", txt)
 }
 
 func tokenize(s string) []string {
@@ -420,55 +476,4 @@ func (s *Solver) Standalone(extra *Term) string {
 	}
 	fmt.Fprintf(&sb, "(assert %s)\n(check-sat)\n", extra.ref())
 	return sb.String()
-}
-
-// ValueOf returns the value of term t in the model of the last (sat) check.
-func (s *Solver) ValueOf(t *Term, _ []*Term) (uint64, error) {
-	if t.IsConst() {
-		return t.c, nil
-	}
-	if s.lastFallbackSat {
-		if r := s.checkZ3(s.timeoutMs, s.lastAssump); r != "sat" {
-			return 0, fmt.Errorf("no model: z3 answered %s after cvc5 answered sat", r)
-		}
-		s.lastFallbackSat = false
-	}
-	s.define(t)
-	// a definition emitted after the check invalidates nothing in z3, but to be safe re-check is the caller's job
-	fmt.Fprintf(&s.pending, "(get-value (%s))\n", t.ref())
-	if err := s.flush(); err != nil {
-		return 0, err
-	}
-	var buf strings.Builder
-	depth := 0
-	started := false
-	for {
-		r, _, err := s.out.ReadRune()
-		if err != nil {
-			return 0, err
-		}
-		if r == '(' {
-			depth++
-			started = true
-		}
-		if started {
-			buf.WriteRune(r)
-		}
-		if r == ')' {
-			depth--
-			if started && depth == 0 {
-				break
-			}
-		}
-	}
-	txt := buf.String()
-	if strings.HasPrefix(txt, "(error") {
-		return 0, fmt.Errorf("solver: %s", txt)
-	}
-	toks := tokenize(txt)
-	// ((ref value))
-	if len(toks) >= 5 {
-		return parseSMTVal(toks[len(toks)-3]), nil
-	}
-	return 0, fmt.Errorf("solver: cannot parse %q", txt)
 }
